@@ -118,6 +118,7 @@ Ltac b2p :=
          | H : negb _ = true |- _ => apply negb_true_iff in H
          | H : negb _ = false |- _ => apply negb_false_iff in H
          | H : _ && _ = true |- _ => apply andb_prop in H; destruct H
+         | H : _ && _ = false |- _ => apply andb_false_iff in H; destruct H
          | H : is_pred _ _ = true |- _ => apply is_pred_true in H
          | H : (_ =? _) = true |- _ => apply N.eqb_eq in H
          | H : (_ =? _) = false |- _ => apply N.eqb_neq in H
